@@ -741,7 +741,19 @@ class FuncAlias(Flow):
             # fancy/boolean index of an array: fresh copy.  (A container held
             # at depth 1 cannot be indexed by a boolean expression.)
             return EMPTY
-        return _elem(base, item=self.index_is_item(e.slice))
+        item = self.index_is_item(e.slice)
+        # an integer index into a transposed array selects a row of a >= 2-D array: a view, never a scalar item
+        v = e.value
+        if item and ((isinstance(v, ast.Call) and self._call_name(v).split('.')[-1] in ('transpose', 'swapaxes', 'atleast_2d'))
+                     or (isinstance(v, ast.Attribute) and v.attr == 'T')):
+            item = False
+        return _elem(base, item=item)
+
+    def _call_name(self, call):
+        try:
+            return ast.unparse(call.func)
+        except Exception:
+            return ''
 
     def ev_Starred(self, e, s):
         return self.ev(e.value, s)
